@@ -123,10 +123,14 @@ class GuardView:
         # closure between a test and a use invalidates atoms over those names
         self.closure_writes = closure_writes or {}
 
-    def guard_atoms(self, n: Node, stable_only: bool = True) -> set[str]:
+    def guard_atoms(self, n: Node, stable_only: bool = True, after_loops: bool = True) -> set[str]:
+        """after_loops=False drops the exit conditions of loops that ended before n (`F:stack` after `while stack:`):
+        they hold at n but do not *select* n."""
         out: set[str] = set()
         for b in self.cfg.guards(n):
             t = b.test
+            if not after_loops and not b.pol and (t.kind == "for" or getattr(t, "note", "") == "while"):
+                continue
             if t.kind == "for":
                 out.add(("IN-LOOP:" if b.pol else "AFTER-LOOP:") + _u(t.ast.iter))
                 continue
